@@ -65,7 +65,9 @@ where
                 });
             }
 
-            if pushed_len == 0 && stored_len == real_stored_len {
+            // After reset() the in-memory page index is already empty; the on-disk
+            // index and data must still be truncated, so only skip when it is unchanged.
+            if pushed_len == 0 && stored_len == real_stored_len && !pages.has_unflushed_change() {
                 return Ok(false);
             }
 
